@@ -2,6 +2,8 @@ import KafVerif.Lemmas.PLogReadFallback
 import KafVerif.Lemmas.PLogReadSegment
 import KafVerif.Lemmas.PLogReadWhole
 import KafVerif.Lemmas.PLogReadReach
+import KafVerif.Lemmas.PLogLoss
+import KafVerif.Model.PLogHandout
 /-!
 C03 — Fetch returns exactly the acknowledged bytes, in order.
 
@@ -29,6 +31,14 @@ batch list that starts at the batch holding `o` (or the first batch after `o`).
 * `read_run_reachable` the same for EVERY reachable state: every configuration and operation sequence whose accepted record
                       sets declare their length (run `Small`: offsets in int64, segments < 2 GiB) — `SegBuilt`/`Coherent`
                       are proved invariants (`Lemmas/PLogReadReach.lean`), nothing is assumed about the state.
+* `read_run_gapped`   `read_run` for a segment list WITH HOLES (`SegGap`: every segment starts at or after the end of the one
+                      before; the in-flight/buffered tail starts at or after the last segment): same conclusion.
+* `read_run_after_loss` any reachable state, then ANY set of index objects / segment objects lost and a restart at any store
+                      offset (orphan rule of `RestoreFromS3`): if the restore succeeds, `Read` on the restored log answers a
+                      non-empty prefix of the retained log from the first batch reaching the offset — also inside a hole.
+* `handouts_stable`   returned record sets modelled in a heap of hand-outs (`Model/PLogHandout.lean`): with the fresh-copy read path
+                      every slice ever handed out keeps its bytes under every later operation; `shared_buffer_unstable` is the
+                      witness for a reused per-partition buffer (seeded change C04-r2-2).
 * `readOld_skips_flush_window`  the code before the fix: with batch A in flight and batch B buffered,
                       `Read(A.base)` returns B's bytes only.
 -/
@@ -135,11 +145,56 @@ theorem _root_.KafVerif.C03.read_run_reachable (iv : Int) (c : Bool) (start : In
     have := (g3 b hb).1.2
     intro hnil; rw [hnil] at this; simp [hdrMin] at this) o m
 
+/-- **C03 (log with holes).** `read_run` with `SegGap` in place of `SegChain`: the restored segment list may have holes
+(orphaned segment skipped by `RestoreFromS3`, deleted objects) and the tail may start after the last segment. -/
+theorem _root_.KafVerif.C03.read_run_gapped {start : Int} {l : PLog} (m0 : Int) (hseg : SegGap start l.segs m0)
+    (htail : Chain m0 (l.fl ++ l.buf) l.next) (hbuilt : ∀ g ∈ l.segs, SegBuilt l.interval g)
+    (hcoh : Coherent l) (hne : ∀ b ∈ l.fl ++ l.buf, b.bytes ≠ []) (o m : Int) :
+    (runFrom l.log o = [] → (read l o m).2 = .oor) ∧
+    (runFrom l.log o ≠ [] → ∃ d, (read l o m).2 = .data d ∧ d ≠ [] ∧ d <+: body (runFrom l.log o)) := by
+  have : l.log = segBatches l.segs ++ (l.fl ++ l.buf) := by simp [PLog.log]
+  rw [this]
+  exact read_gapped m0 hseg htail hbuilt hcoh hne o m
+
+/-- **C03 (after object loss).** Every reachable state (`RunOK` history), then ANY list of lost objects (index object of a
+segment deleted / corrupt, segment object deleted) and a restart at ANY store offset `st ≥ start`: if `RestoreFromS3` succeeds
+(no index-less segment below `st`), then for every offset and byte limit `Read` on the restored log answers
+offset-out-of-range iff no retained batch reaches the offset, and otherwise a non-empty prefix of the retained log's bytes
+starting exactly at the first retained batch that reaches the offset (the batch holding it, or the first batch after the
+hole it falls into). -/
+theorem _root_.KafVerif.C03.read_run_after_loss (iv : Int) (c : Bool) (start : Int) (ops : List Op)
+    (hr : RunOK (PLog.new iv c start) ops) (losses : List Loss) (st last : Int) (hst : start ≤ st)
+    (hres : (restoreAt (losses.foldl lose { l := ops.foldl step (PLog.new iv c start) }) st).2 = .ok last) (o m : Int) :
+    let l' := (restoreAt (losses.foldl lose { l := ops.foldl step (PLog.new iv c start) }) st).1.l
+    (runFrom l'.log o = [] → (read l' o m).2 = .oor) ∧
+    (runFrom l'.log o ≠ [] → ∃ d, (read l' o m).2 = .data d ∧ d ≠ [] ∧ d <+: body (runFrom l'.log o)) := by
+  intro l'
+  obtain ⟨hi, hg, _⟩ := good_reach (PLog.new iv c start) ops (inv_new iv c start) (good_new iv c start) hr
+  obtain ⟨r1, r2, r3, r4, r5, _⟩ := restore_gapped hi hg losses st last hst hres
+  exact KafVerif.C03.read_run_gapped l'.next r1 (by show Chain l'.next (l'.fl ++ l'.buf) l'.next; rw [r2, r3]; simp [Chain]) r4 r5
+    (by intro b hb; rw [r2, r3] at hb; simp at hb) o m
+
 /-- a read changes nothing but the cache, and what it caches is the S3 object of a segment -/
 theorem _root_.KafVerif.C03.read_only_caches (l : PLog) (o m : Int) :
     (read l o m).1.segs = l.segs ∧ (read l o m).1.buf = l.buf ∧ (read l o m).1.fl = l.fl ∧
     (read l o m).1.next = l.next ∧ (read l o m).1.s3 = l.s3 ∧ (read l o m).1.hw = l.hw := by
   obtain ⟨e1, e2, e3, e4, e5, _, e7, _⟩ := read_frame l o m
   exact ⟨e1, e2, e3, e4, e5, e7⟩
+
+/-! ### returned record sets are never written to again -/
+
+/-- **C03/C04 (hand-out stability).** In the heap model of returned buffers, with the fresh-copy read path (`append([]byte(nil), …)`
+in `sliceCachedSegment`, `recordsFromBatches`, the S3 client's copy): after ANY sequence of operations, every slice `Read` ever
+handed out still holds exactly the bytes it was returned with. -/
+theorem _root_.KafVerif.C03.handouts_stable (l : PLog) (ops : List Op) :
+    ∀ h ∈ (Handout.run .fresh ⟨l, [], []⟩ ops).outs, (Handout.run .fresh ⟨l, [], []⟩ ops).heap.getD h.1 [] = h.2 :=
+  Handout.fresh_stable l ops
+
+/-- **Witness (seeded change C04-r2-2).** With one reused buffer per partition the bytes handed to the first fetch change when a
+second fetch on the partition is served. -/
+theorem _root_.KafVerif.C03.shared_buffer_unstable :
+    ∃ (l : PLog) (ops : List Op), ∃ h ∈ (Handout.run .shared ⟨l, [], []⟩ ops).outs,
+      (Handout.run .shared ⟨l, [], []⟩ ops).heap.getD h.1 [] ≠ h.2 :=
+  Handout.shared_unstable
 
 end KafVerif.PLog
